@@ -146,3 +146,26 @@ Proof. vm_compute. reflexivity. Qed.
 
 Lemma preset_names : map fst presets = ["strict"; "standard"; "lenient"].
 Proof. reflexivity. Qed.
+
+(* ------------------------------------------------------------------ byte level, for every existing file whatsoever *)
+Theorem init_raw_preserved q preset reps E names R :
+  lookup preset presets = Some reps -> init_config q preset E = Merged names R -> raw_spliced E R.
+Proof.
+  intros Hl. pose proof (preset_lookup_ok _ _ Hl) as Hok. destruct (preset_ok_facts reps Hok) as (_ & Hwf & _).
+  unfold init_config. rewrite Hl. unfold init_with, init_from.
+  assert (Hgo : forall keys isb,
+    match filter (fun s => negb (present q keys (fst s))) (preset_sections reps) with
+    | [] => AlreadyComplete
+    | _ :: _ => if negb isb && negb (q_append_to_flow_root q) then Refused
+                else Merged (map fst (filter (fun s => negb (present q keys (fst s))) (preset_sections reps)))
+                            (merge_lines q E (join_texts section_join_newlines (map snd (filter (fun s => negb (present q keys (fst s))) (preset_sections reps)))))
+    end = Merged names R -> raw_spliced E R).
+  { intros keys isb. remember (filter (fun s => negb (present q keys (fst s))) (preset_sections reps)) as ms eqn:Hms.
+    assert (Hwf' : forallb sec_wf ms = true).
+    { rewrite forallb_forall in *. intros s Hs. apply Hwf. rewrite Hms in Hs. now apply filter_In in Hs as [Hs _]. }
+    clear Hms. destruct ms as [|m ms']; [discriminate|].
+    destruct (negb isb && negb (q_append_to_flow_root q)); [discriminate|]. intro H.
+    assert (HR : R = merge_lines q E (join_texts section_join_newlines (map snd (m :: ms')))) by congruence.
+    rewrite HR. apply merge_raw_spliced; [discriminate|exact Hwf']. }
+  destruct (analyse E) as [es|ks|]; [apply Hgo|apply Hgo|discriminate].
+Qed.
